@@ -406,6 +406,10 @@ func outcomeOf(p *sym.Path) string {
 			}
 		}
 	}
+	if p.Panic {
+		parts = append(parts, "panic")
+		return strings.Join(parts, "; ")
+	}
 	var rs []string
 	for _, t := range p.Ret {
 		rs = append(rs, normTerm(t))
@@ -565,6 +569,60 @@ func normTable(mp *MethodPaths) map[string][]string {
 		}
 		sort.Strings(l)
 		out[nc] = l
+	}
+	return expandUntested(out)
+}
+
+// expandUntested: a row whose key state is 'present, expiry not tested' (P) says the outcome does not depend on
+// the expiry of the entry: it stands for the rows expired / live-with-deadline / live-forever with that outcome
+// (likewise L = live, sign of the deadline not tested, stands for L+ and L0). Tables are compared in the expanded
+// form, so dropping an expiry test whose result is not used - or adding one - is not a table change.
+func expandUntested(t map[string][]string) map[string][]string {
+	out := map[string][]string{}
+	add := func(k string, os []string) {
+		set := map[string]bool{}
+		for _, o := range out[k] {
+			set[o] = true
+		}
+		for _, o := range os {
+			set[o] = true
+		}
+		var l []string
+		for o := range set {
+			l = append(l, o)
+		}
+		sort.Strings(l)
+		out[k] = l
+	}
+	for k, os := range t {
+		head, rest := k, ""
+		if i := strings.Index(k, " "); i >= 0 {
+			head, rest = k[:i], k[i:]
+		}
+		switch head {
+		case "P":
+			for _, h := range []string{"L+", "L0"} {
+				add(h+rest, os)
+			}
+			// for an expired entry the physical removal is not an outcome (it is as good as absent already)
+			var eos []string
+			for _, o := range os {
+				var parts []string
+				for _, part := range strings.Split(o, "; ") {
+					if part != "delete" {
+						parts = append(parts, part)
+					}
+				}
+				eos = append(eos, strings.Join(parts, "; "))
+			}
+			add("E"+rest, eos)
+		case "L":
+			for _, h := range []string{"L+", "L0"} {
+				add(h+rest, os)
+			}
+		default:
+			add(k, os)
+		}
 	}
 	return out
 }
